@@ -356,6 +356,14 @@ func verifyOnce(vec J) J {
 		if err := control.Unmarshal(&h, strings.NewReader(field+":\n "+line+"\n")); err == nil {
 			entries = h.Checksums()
 		}
+	case "bestafter": // the very same line was parsed under the OTHER checksum field first (in this process)
+		other := map[string]string{"sha256": "Checksums-Sha512", "sha512": "Checksums-Sha256"}[alg]
+		field := map[string]string{"sha256": "Checksums-Sha256", "sha512": "Checksums-Sha512"}[alg]
+		var h0, h bestHolder
+		control.Unmarshal(&h0, strings.NewReader(other+":\n "+line+"\n"))
+		if err := control.Unmarshal(&h, strings.NewReader(field+":\n "+line+"\n")); err == nil {
+			entries = h.Checksums()
+		}
 	case "bestloop": // the Decoder-loop idiom: one variable decoded into twice, the values kept; the FIRST one is used afterwards
 		field := map[string]string{"sha256": "Checksums-Sha256", "sha512": "Checksums-Sha512"}[alg]
 		zeros := strings.Repeat("0", len(good))
@@ -399,9 +407,27 @@ func verifyOnce(vec J) J {
 			other.Filename = "other_2.0.tar.gz"
 			e = other
 		}
+		// `interleave`: a second verifier of the same algorithm (for another content) is alive and written to between
+		// the chunks of this one
+		var v2 interface {
+			Write([]byte) (int, error)
+			Close() error
+		}
+		if il, _ := vec["interleave"].(bool); il {
+			if hs, herr := hashio.NewHasher(e.Algorithm); herr == nil {
+				hs.Write([]byte("another file"))
+				e2 := control.FileHashFromHasher("other_2.0.tar.gz", *hs)
+				if w2, err2 := e2.Verifier(); err2 == nil {
+					v2 = w2
+				}
+			}
+		}
 		if err == nil && v != nil {
 			obs["new_ok"] = true
 			pos := 0
+			if v2 != nil {
+				v2.Write([]byte("another "))
+			}
 			for _, c := range L(vec["chunks"]) {
 				n := I(c)
 				if pos+n > len(content) {
@@ -409,6 +435,9 @@ func verifyOnce(vec J) J {
 				}
 				v.Write(content[pos : pos+n])
 				pos += n
+				if v2 != nil && pos == n {
+					v2.Write([]byte("file"))
+				}
 			}
 			v.Write(content[pos:])
 			obs["close_ok"] = v.Close() == nil
